@@ -45,6 +45,7 @@
 //     for a parameter x of the seam's interface type, appends GEv "M" [args] to the record's extra field
 //     `trace` (most recent first) when the method is marked "record"; values returned by M (a, b = x.M(..))
 //     are extra parameters s_M_0, s_M_1.. of the translated function; a call on a nil reference is a panic.
+// A field assignment r.f = e is `set_f_<T>_<f> r e` (one setter per field, generated after the Record).
 // Variables of inner scopes must not shadow variables of enclosing scopes (rejected).
 package main
 
@@ -459,6 +460,10 @@ func (tr *translator) recvField(e ast.Expr) (sfield, bool) {
 }
 
 func (tr *translator) setField(f sfield, val string) string {
+	if cfg.Gres {
+		// extended mode: one setter per field (generated after the Record) keeps the terms small
+		return "(set_" + fieldName(tr.mon, f.name) + " " + v(tr.ptrRecv) + " " + val + ")"
+	}
 	var parts []string
 	for _, g := range structFields[tr.mon] {
 		if g.name == f.name {
@@ -1562,6 +1567,23 @@ func main() {
 		}
 		fmt.Printf("(* %s : type %s *)\n", cfg.Structs[st], st)
 		fmt.Printf("Record %s := mk_%s { %s }.\n\n", rn, rn, strings.Join(fds, "; "))
+		if cfg.Gres {
+			// r.f = x : the record with field f replaced
+			for _, f := range structFields[st] {
+				var parts []string
+				ty := ""
+				for _, g := range structFields[st] {
+					if g.name == f.name {
+						parts = append(parts, "x")
+						ty = strings.SplitN(fds[len(parts)-1], " : ", 2)[1]
+					} else {
+						parts = append(parts, "("+fieldName(st, g.name)+" r)")
+					}
+				}
+				fmt.Printf("Definition set_%s (r : %s) (x : %s) : %s := mk_%s %s.\n", fieldName(st, f.name), rn, ty, rn, rn, strings.Join(parts, " "))
+			}
+			fmt.Println()
+		}
 	}
 	for _, spec := range cfg.Funcs {
 		path := filepath.Join(cfg.Repo, spec.File)
